@@ -14,6 +14,7 @@ import (
 	"os"
 	"reflect"
 	"sort"
+	"strings"
 	"testing"
 )
 
@@ -130,6 +131,12 @@ func TestGovcBounded(t *testing.T) {
 	for _, d := range []string{"1e400", "[1E999]", "-1e-400", "[-1e400,1]", `{"a":1e999}`, "0e0", "-0.0e+0", "1\x00", "1\x00x", "[1]\x00", "\x00", "[\x001]", "\"\x1f\"", "\"\x00\"", "[\"a\x01\"]", "{\"k\x02\":1}",
 		"[\"" + bs + "u00\x1f1\"]", "\"" + bs + "u00zz\"", "\"" + bs + "uD800" + bs + "u00zz\"", "\"\x7f\"", "\"\t\"", "[\"<&>\"]", "{\"<\":\"&\"}", "\"" + string(rune(0x2028)) + string(rune(0x2029)) + "\"", "<>&", "\xe2\x80", "\xe2\x80\xa8\xe2\x80\xa9",
 		"\"" + bs + "u003c" + bs + "/" + bs + "b\"", " \t\r\n[ \t\r\n] \t\r\n", "\"\xff\"", "[\"\xed\xa0\x80\"]"} {
+		buf = append(buf[:0], d...)
+		check()
+	}
+	// nesting beyond 10000 levels is an error for encoding/json (and must not exhaust the stack)
+	for _, d := range []string{strings.Repeat("[", 10001) + strings.Repeat("]", 10001), strings.Repeat(`{"a":`, 10001) + "1" + strings.Repeat("}", 10001),
+		strings.Repeat("[", 10000) + "{}" + strings.Repeat("]", 10000), strings.Repeat("[", 400000), strings.Repeat("[", 9999) + `"[[{{"` + strings.Repeat("]", 9999) + "x"} {
 		buf = append(buf[:0], d...)
 		check()
 	}
